@@ -82,7 +82,9 @@ func allowFromEnv() map[string]bool {
 
 var deferPart = pbt.Part[deferCase]{Name: "defer-reconstruction-and-stream", Quick: 24000, Thorough: 480000, Check: checkDefer,
 	Gen: func(t *rapid.T) deferCase {
-		l := fedgen.Gen(t, fedgen.Options{Allow: allowFromEnv(), NoRequires: !allowFromEnv()["requires"]})
+		// @defer below a list of lists never delivers (finding C10-defer-under-nested-list)
+		l := fedgen.Gen(t, fedgen.Options{Allow: allowFromEnv(), NoRequires: !allowFromEnv()["requires"],
+			Exclude: map[string]bool{"nested-value-list": !allowFromEnv()["defer-under-nested-list"]}})
 		super, err := sim.LoadSuper(l.Super)
 		if err != nil {
 			t.Fatalf("generator produced an invalid supergraph: %v", err)
